@@ -164,12 +164,12 @@ def canon(line, rules):
 
 
 def run_harness(prop, h, tier, seed, extra=None):
-    out = "%s/run/%s-%s" % (CACHE, prop, h["bin"])
+    out = "%s/run/%s-%s" % (CACHE, prop, h.get("name", h["bin"]))
     shutil.rmtree(out, ignore_errors=True)
     os.makedirs(out)
     args = [TARGET + "/debug/" + h["bin"], "--out", out] + list(h.get(tier, h.get("quick", []))) + (extra or [])
     rc, log = sh(args, timeout=h.get("timeout_" + tier, 3000), env={"VERIF_SEED": str(seed), "VERIF_TIER": tier, "VERIF_PROP": prop})
-    res = {"bin": h["bin"], "out": out, "rc": rc, "log": log[-3000:], "disagreements": [], "oracle": [], "stats": {}}
+    res = {"bin": h["bin"], "name": h.get("name", h["bin"]), "out": out, "rc": rc, "log": log[-3000:], "disagreements": [], "oracle": [], "stats": {}}
     if rc != 0:
         return res
     try:
@@ -309,7 +309,7 @@ def run_check(prop, tier, seed, replay=None):
             "distinct_nontrivial": sum(s.get("distinct_nontrivial", 0) for s in stats_all),
             "rule": " || ".join(s.get("rule", "") for s in stats_all),
             "samples": [str(x)[:400] for s in stats_all for x in s.get("samples", [])][:8] or ["(proof only)"],
-            "input_distribution": {r["bin"]: r["stats"].get("distribution", {}) for r in runs if r.get("stats")},
+            "input_distribution": {r["name"]: r["stats"].get("distribution", {}) for r in runs if r.get("stats")},
             "traces_validated_against_impl": sum(s.get("evaluations", 0) for s in stats_all),
             "correspondence_disagreements": sum(len(r["disagreements"]) for r in runs),
             "oracle_failures_this_property": k, "known_finding_hits": sorted(known_hits),
